@@ -1441,6 +1441,18 @@ fn main() {
         }
         match item {
             Item::Impl(imp) => { handle_impl(&mut cx, imp, &wanted); }
+            // provided (default-bodied) methods of a trait: extracted like free functions of the monomorphised Self type
+            Item::Trait(tr) => {
+                for ti in tr.items.iter() {
+                    if let TraitItem::Fn(f) = ti {
+                        if let Some(block) = &f.default {
+                            if o.impl_filter.is_none() && wanted(&f.sig.ident.to_string()) {
+                                process_fn(&mut cx, &Visibility::Inherited, &f.sig, block, true);
+                            }
+                        }
+                    }
+                }
+            }
             Item::Fn(f) => {
                 if o.impl_filter.is_none() && wanted(&f.sig.ident.to_string()) {
                     process_fn(&mut cx, &f.vis, &f.sig, &f.block, false);
